@@ -32,11 +32,11 @@ def run(ctx):
     )
     run.trusted_base = ["CPython ast", "spec model for the modified precision (shared with C01/C02)"]
     run.assumptions = ["datetime comparison/timedelta semantics of CPython"]
-    rule_pipeline(ctx)
-    rule_unmodifiable(ctx)
-    rule_granularity(ctx)
-    rule_strict_compare(ctx)
-    rule_clock(ctx)
+    ctx.do(rule_pipeline)
+    ctx.do(rule_unmodifiable)
+    ctx.do(rule_granularity)
+    ctx.do(rule_strict_compare)
+    ctx.do(rule_clock)
 
 
 def rule_pipeline(ctx):
